@@ -259,6 +259,32 @@ func (p *Program) buildQuery(o *Obligation, unfoldDepth int) string {
 	} else {
 		asserts = append(asserts, Not(o.Goal))
 	}
+	// type invariants of the heap arrays that occur
+	{
+		seenV := map[*Term]bool{}
+		var hv []*Term
+		for _, a := range asserts {
+			collect(a, seenV, func(t *Term) {
+				if t.Op == "var" {
+					if _, ok := p.heapVars[t]; ok {
+						hv = append(hv, t)
+					}
+				}
+			})
+		}
+		sort.Slice(hv, func(i, j int) bool { return hv[i].id < hv[j].id })
+		amax := Var("alloc$max", SInt)
+		for _, v := range hv {
+			info := p.heapVars[v]
+			if inv := p.heapInv(info.name, v, info.alloc); inv != True {
+				asserts = append(asserts, inv)
+				asserts = append(asserts, Le(info.alloc, amax))
+			}
+		}
+		if o.Alloc != nil {
+			asserts = append(asserts, Le(o.Alloc, amax))
+		}
+	}
 	defs := p.unfoldDefs(asserts, unfoldDepth)
 	asserts = append(asserts, defs...)
 	asserts = append(asserts, mathAxioms(asserts)...)
